@@ -320,8 +320,14 @@ ModelsOfSeed(s) == SysOf(Seed(s)).models
 \* <<mcv, model char>>: one event of each model, two unknown codes of each model, an unregistered model
 Probe == {<<"KCO", "K">>, <<"MUi", "M">>, <<"VSh", "V">>, <<"6C[", "6">>, <<"DR[", "D">>, <<"TCi", "T">>, <<"PBb", "P">>,
           <<"OF[", "O">>}
+\* codes that differ from a listed event only in bit 7 of the value ("~xyz") or of the category byte ("^xyz");
+\* the harness writes the byte with the bit set (TLA+ strings are ASCII)
+HighBit == {<<"~KCO", "K">>, <<"~MUi", "M">>, <<"~VSh", "V">>, <<"~6C[", "6">>, <<"~DR[", "D">>, <<"~TCi", "T">>,
+            <<"~PBb", "P">>, <<"~OHp", "O">>, <<"^KCO", "K">>, <<"^MUi", "M">>, <<"^VSh", "V">>, <<"^6C[", "6">>,
+            <<"^DR[", "D">>, <<"^TCi", "T">>, <<"^PBb", "P">>, <<"^OHp", "O">>}
 Unknown == {<<"OZZ", "O">>, <<"OHz", "O">>, <<"KZZ", "K">>, <<"MZZ", "M">>, <<"VZZ", "V">>, <<"VSz", "V">>,
             <<"6ZZ", "6">>, <<"DZZ", "D">>, <<"TZZ", "T">>, <<"PZZ", "P">>, <<"ZZZ", "Z">>, <<"oHx", "o">>}
+           \cup HighBit
 StateEvents == {<<"OHp", "O">>, <<"OHr", "O">>, <<"OHc", "O">>, <<"OHw", "O">>, <<"OHe", "O">>, <<"OF]", "O">>,
                 <<"VSf", "V">>, <<"6C]", "6">>, <<"MUI", "M">>}
 WithPayloadRead == {<<"OHx", "O">>, <<"OAs", "O">>, <<"VTx", "V">>, <<"6Tx", "6">>, <<"OM=", "O">>}
